@@ -6,6 +6,7 @@
 #define CONTRACTS_WRITER_H
 #include "spec/ghost.h"
 #include "spec/ghost_writer.h"
+#include "spec/ghost_close.h"
 #include "spec/spec_hash.h"
 
 /* ---- effective chunking parameters (C16: "average/4 and average*4 clamped by configured min/max";
@@ -225,6 +226,7 @@ V_ENSURES(!__CPROVER_return_value || comp_size == 0 || g_hu_hash != &zck->full_h
 V_ENSURES(!__CPROVER_return_value || WHASH_WF(zck))
 V_ENSURES(!__CPROVER_return_value || comp_size != 0 || g_hu_hash != &zck->full_hash || g_hu_total == V_OLD(g_hu_total)) /*@C01,C06.index_add_to_chunk.data_hash_untouched_when_nothing_is_stored*/
 V_ENSURES(!__CPROVER_return_value || V_OLD(zck->work_index_item) == NULL || g_hu_hash != &zck->work_index_hash_uncomp || g_hu_total == V_OLD(g_hu_total)) /*@C01.index_add_to_chunk.uncompressed_chunk_hash_not_fed_here*/
+V_ENSURES(!__CPROVER_return_value || zck->error_state == V_OLD(zck->error_state)) /*@C12.index_add_to_chunk.success_keeps_error_state*/
 ;
 
 /* finishes the entry under construction: it becomes the last entry of the index with the
@@ -241,6 +243,7 @@ V_ENSURES(!__CPROVER_return_value || (zck->index.last != NULL && zck->index.firs
 V_ENSURES(!__CPROVER_return_value || (LAST_NOW(zck)->length == WI_OLD_LEN(zck) && LAST_NOW(zck)->comp_length == WI_OLD_CLEN(zck) && LAST_NOW(zck)->start == V_OLD(zck->index.length) && zck->index.length == V_OLD(zck->index.length) + WI_OLD_CLEN(zck) && LAST_NOW(zck)->next == NULL)) /*@C01,C13.index_finish_chunk.entry_carries_the_accumulated_lengths*/
 V_ENSURES(!__CPROVER_return_value || (zck->work_index_hash.ctx == NULL && zck->work_index_hash.type == NULL && zck->work_index_hash_uncomp.ctx == NULL && zck->work_index_hash_uncomp.type == NULL))
 V_ENSURES(__CPROVER_return_value || zck->index.count == V_OLD(zck->index.count)) /*@C01.index_finish_chunk.no_entry_on_failure*/
+V_ENSURES(!__CPROVER_return_value || zck->error_state == V_OLD(zck->error_state)) /*@C12.index_finish_chunk.success_keeps_error_state*/
 ;
 
 /* ---- comp.c, writer side -------------------------------------------------------------------------- */
@@ -297,6 +300,7 @@ V_ENSURES(!__CPROVER_return_value || zck->index.count == V_OLD(zck->index.count)
 V_ENSURES(!__CPROVER_return_value || (zck->comp.dc_data == NULL && WH1_WF(zck, &zck->work_index_hash) && WH1_WF(zck, &zck->work_index_hash_uncomp))) /*@C03.comp_init.keeps_writer_state_well_formed*/
 V_ENSURES(!__CPROVER_return_value || zck->index.count != V_OLD(zck->index.count) || (zck->index.first == V_OLD(zck->index.first) && zck->index.last == V_OLD(zck->index.last)))
 V_ENSURES(!__CPROVER_return_value || zck->index.count == V_OLD(zck->index.count) || (zck->index.first != NULL && zck->index.last != NULL && __CPROVER_is_fresh(zck->index.last, sizeof(zckChunk)))) /*@C01,C03.comp_init.dictionary_entry_is_the_new_last_entry*/
+V_ENSURES(!__CPROVER_return_value || zck->error_state == V_OLD(zck->error_state)) /*@C12.comp_init.success_keeps_error_state*/
 ;
 
 /* zck_end_chunk (API).  C01: on a non-negative result either the chunk was finished (nothing pending,
@@ -372,6 +376,9 @@ V_ENSURES_NODES(__CPROVER_return_value < 0 || !ECF_REFUSES(zck) || g_wr_bytes[G_
 V_ENSURES(__CPROVER_return_value < 0 || !force || (zck->comp.dc_data_size == 0 && zck->work_index_item == NULL)) /*@C01.comp_end_chunk.forced_end_is_never_refused_nothing_stays_pending*/
 V_ENSURES(__CPROVER_return_value < 0 || V_OLD(zck->comp.started) == 0 || V_OLD(zck->comp.dc_data_size) != 0 || zck->index.count == V_OLD(zck->index.count)) /*@C01.comp_end_chunk.no_entry_for_an_empty_chunk*/
 V_ENSURES(__CPROVER_return_value < 0 || PENDING_WF(zck)) /*@C01.comp_end_chunk.no_half_built_entry_without_pending_bytes*/
+V_ENSURES(__CPROVER_return_value < 0 || zck->error_state == V_OLD(zck->error_state)) /*@C12.comp_end_chunk.success_keeps_error_state*/
+V_ZC_ASSIGNS(g_res_ec)
+V_ZC_ENSURES(g_res_ec == (__CPROVER_return_value >= 0))
 ;
 
 
